@@ -4,7 +4,8 @@ Domain   parser recipes (1-3 typed arguments from grammar G incl. dataclasses, s
          subcommands) x a configuration the parser *accepted* (object channel and, where every value has an unambiguous
          command line spelling, the argv channel - so that every look-alike string is reached as an accepted str).
 Oracle   inverse: typed_eq(parse(serialise(cfg)), cfg) for dump in yaml/json/json_indented (skip_none=False), dump(skip_default),
-         --print_config[=skip_default] written to a file and read back with --cfg, and save()+parse_path().  dump/save always get
+         --print_config[=skip_default] written to a file and read back with --cfg (also as the second request on a parser object that
+         already served one with other flags), and save()+parse_path().  dump/save always get
          a deep copy (isolation from C08).  Every differing leaf is classified on its own.
 """
 import copy
@@ -97,9 +98,14 @@ def run_case(ctx, case):
                     continue
                 compare(ctx, case, fmt, step, base, _rt.clean(back))
         mode = case.get("mode", 0)
-        if mode in (1, 2) and argv is not None:
-            flag = "--print_config" if mode == 1 else "--print_config=skip_default"
-            code, text = _rt.capture_print_config(P.build(case["recipe"]), argv, flag)
+        if mode in (1, 2, 5, 6, 7) and argv is not None:
+            flag = "--print_config=skip_default" if mode in (2, 7) else "--print_config"
+            pp = P.build(case["recipe"])
+            if mode in (5, 6, 7):
+                # an earlier request with other flags on the same parser object must not colour this one
+                _rt.capture_print_config(pp, argv, "--print_config=skip_null" if mode in (5, 7) else "--print_config=skip_default")
+                ctx.cls("print_config-after-an-earlier-request-with-other-flags")
+            code, text = _rt.capture_print_config(pp, argv, flag)
             ctx.cls("print_config")
             if code != 0:
                 ctx.finding(f"C01/{flag}/exit-code-{code}", {"argv": argv, "stdout": short(text, 300)})
